@@ -17,6 +17,16 @@ func c04Counts(o *OSM) [7]int {
 	return [7]int{b, len(o.Nodes), len(o.Ways), len(o.Relations), len(o.Changesets), len(o.Notes), len(o.Users)}
 }
 
+// c04Plain: printable ASCII without leading or trailing space
+func c04Plain(s string) bool {
+	for i := 0; i < len(s); i++ {
+		if s[i] < 0x20 || s[i] > 0x7e {
+			return false
+		}
+	}
+	return s == "" || (s[0] != ' ' && s[len(s)-1] != ' ')
+}
+
 func c04Clean(o *OSM) {
 	if o == nil {
 		return
@@ -119,6 +129,10 @@ func oracleC04OSMRoundTrip(o OSM) {
 	vAssert(bc[6] == oc[6]) // users
 	if o.Bounds != nil && back.Bounds != nil {
 		vAssert(*o.Bounds == *back.Bounds)
+	}
+	// root attributes (plain text only: what XML cannot carry is not part of the claim)
+	if c04Plain(o.Version) && c04Plain(o.Generator) && c04Plain(o.Copyright) && c04Plain(o.Attribution) && c04Plain(o.License) {
+		vAssert(back.Version == o.Version && back.Generator == o.Generator && back.Copyright == o.Copyright && back.Attribution == o.Attribution && back.License == o.License)
 	}
 	again, err := xml.Marshal(back)
 	if err == nil && string(again) != string(data) {
